@@ -20,15 +20,6 @@ def qobj? (toks : List String) : Option (QObj Int) :=
   | "notall" :: ks => do let ks ← intList? ks; pure (.notall ks)
   | _ => none
 
-/-- the index's own entry points `applyX` -/
-def applyDirect (s : State Int) : QObj Int → List Int
-  | .eq k => applyEq s k
-  | .noteq k => applyNotEq s k
-  | .any ks => applyAny s ks
-  | .notany ks => applyNotAny s ks
-  | .all ks => applyAll s ks
-  | .notall ks => applyNotAll s ks
-
 def obs (st : St) : String :=
   let s := st.s
   let t := st.t
@@ -85,7 +76,7 @@ def step0 (st : St) (toks : List String) : St × String :=
     | none => (st, "bad-op")
   | "q" :: rest =>
     match qobj? rest with
-    | some q => (st, both (applyDirect st.s q) (Spec.sem st.t q))
+    | some q => (st, both (QObj.applyIndex st.s q) (Spec.sem st.t q))
     | none => (st, "bad-op")
   | "qx" :: rest =>
     match qobj? rest with
